@@ -25,7 +25,7 @@ def run(tier, seed):
     n = tier_n(tier, 200, 2500)
     g = gen.Gen(seed * 7919 + 13)
     progs = [g.program({"nstrat": g.rng.choice([1, 2, 2, 3]), "p_post": 0.6, "cross": 0.5, "nsteps": g.rng.choice([1, 2]),
-                        "full_filters": 0.6, "prefix_names": 0.3,
+                        "full_filters": 0.6, "prefix_names": 0.3, "fadj_pairs": 0.6,
                         "post_import": 0.4, "post_exit": 0.5, "post_birth": 0.3}) for _ in range(n)]
     out = []
     nq = 0
